@@ -11,6 +11,11 @@ type Meter struct {
 	util.Rat
 }
 
+const (
+	maxMeterNum   = 255
+	maxMeterDenom = 128
+)
+
 func NewMeter(num, denom uint) (Meter, error) {
 	m := Meter{
 		util.NewRat(num, denom),
@@ -39,6 +44,13 @@ func (m Meter) validate() error {
 	}
 	if m.Num < 1 {
 		return errorx.Invalid("Meter should be positive")
+	}
+	// a MIDI time signature carries the numerator in one byte and the denominator as a power of two
+	if m.Num > maxMeterNum {
+		return errorx.Invalid("Meter numerator should be at most %d", maxMeterNum)
+	}
+	if m.Denom > maxMeterDenom || m.Denom&(m.Denom-1) != 0 {
+		return errorx.Invalid("Meter denominator should be a power of two up to %d", maxMeterDenom)
 	}
 	return nil
 }
